@@ -193,11 +193,7 @@ impl MT101 {
             let field_23e = if parser.detect_field("23E") {
                 let mut codes = Vec::new();
                 while parser.detect_field("23E") {
-                    if let Ok(field) = parser.parse_field::<Field23E>("23E") {
-                        codes.push(field);
-                    } else {
-                        break;
-                    }
+                    codes.push(parser.parse_field::<Field23E>("23E")?);
                 }
                 if !codes.is_empty() { Some(codes) } else { None }
             } else {
